@@ -22,9 +22,9 @@ func init() {
 		Explain: "Static necessary conditions for 'the transposition table returns only what was stored for that key'. " +
 			"R1: layout arithmetic from the constants and types.Sizes(gc/amd64): signature lanes fit the key word, match64's three constants are the lane-replicated 1 / lane sign bits for partialKeyBits and its lane index divides by the lane width, bound types fit the bits left of the packed depth and Insert packs with the shift packed.Depth unpacks, Sizeof(bucket)=bucketSize, bucket is pointer-free, re-based mate scores fit Score. " +
 			"R2: LookUp and Insert compute bucket and signature by the same expressions of their hash argument; LookUp returns the entry of the lane match64 reported, of the bucket whose keys it matched; bucketIx is a multiply-high whose result is < len(data). " +
-			"R3: as piecewise functions of (score, ply) — derived from the SSA, thresholds and strictness compared with each other, not with fixed numbers — Insert moves scores beyond two thresholds away from zero by ply and entry.Value moves scores beyond the same thresholds back by ply; all other scores unchanged. " +
-			"R4: in Insert the lane compared, the entry overwritten, the lane cleared and the lane set are the same lane; a signature match replaces that lane; the early return is reachable only under signature match, non-exact bound, stored depth > d+2 and same generation; a kept move comes only from the signature-matching entry and only when the new move is null; Clear zeroes the signature word of every bucket. " +
-			"R5: bucket/entry/Table fields have no writer besides Insert, Clear, Resize (in any loaded package) and the pointer returned by LookUp is only read. R6: Resize's allocation, alignment mask and slice length keep the bucket slice inside the raw allocation and non-empty. " +
+			"R3: as piecewise functions of (score, ply) — computed from the SSA as sets of scores per adjustment (branch conditions, boolean joins and called chess-3 helpers such as Score.IsMate evaluated over all scores at once; thresholds and strictness compared with each other, not with fixed numbers) — Insert moves scores beyond two thresholds away from zero by ply and entry.Value moves scores beyond the same thresholds back by ply; all other scores unchanged. " +
+			"R4: in Insert the lane compared, the entry overwritten, the lane cleared and the lane set are the same lane; a signature match replaces that lane; the early return can execute only under signature match, non-exact bound, stored depth > d+2 and same generation (path-sensitive simulation over these atoms, independent of how the tests are arranged); a kept move comes only from the signature-matching entry and only when the new move is null; Clear zeroes the signature word of every bucket. " +
+			"R5: every store to a bucket, an entry or the Table (classified by the type of the storage written, in any loaded package) happens in Insert, Clear, Resize or helpers only they call, and the pointer returned by LookUp is only read. R6: Resize's allocation, alignment mask and slice length keep the bucket slice inside the raw allocation and non-empty. " +
 			"Not decided: the replacement policy (quality), HashFull, behaviour over operation sequences, values for concrete keys.",
 		Assume: []string{"types.SizesFor(gc, amd64) is the layout of the shipped binary", "go/ssa models the program faithfully", "plies and depths are 0..MaxPlies-1 as the property states"},
 		Run:    runC15,
@@ -70,7 +70,7 @@ func runC15(c *Ctx) {
 		}
 		e.named[n[i+1:]] = t
 	}
-	for _, n := range []string{"transp.(*Table).Insert", "transp.(*Table).LookUp", "transp.(*entry).Value", "transp.(*Table).bucketIx", "transp.match64", "transp.(*Table).Resize", "transp.validateSize", "transp.(packed).Depth", "transp.(packed).Type", "transp.(*Table).Clear", "transp.New"} {
+	for _, n := range []string{"transp.(*Table).Insert", "transp.(*Table).LookUp", "transp.(*entry).Value", "transp.(*Table).bucketIx", "transp.match64", "transp.(*Table).Resize", "transp.(packed).Depth", "transp.(packed).Type", "transp.(*Table).Clear"} {
 		f := p.Func(n)
 		if f == nil || f.Blocks == nil {
 			c.Anchor("C15", n)
@@ -227,13 +227,20 @@ func c15RelK(ce condEdge) (ssa.Value, token.Token, int64, bool) {
 }
 
 // c15Expr renders an SSA value as an expression over its function's parameters
-// (named by type, so that siblings with differently named/ordered parameters compare equal).
-func c15Expr(v ssa.Value, d int) string {
+// (named by type, so that siblings with differently named/ordered parameters compare
+// equal). Calls of chess-3 functions with a single return are inlined (parameters
+// bound to the rendered arguments), so a computation moved into a helper renders
+// like the computation itself.
+func c15Expr(v ssa.Value, bind map[*ssa.Parameter]string, keep *ssa.Function, d int) string {
 	if d > 14 {
 		return "?deep"
 	}
+	sub := func(x ssa.Value) string { return c15Expr(x, bind, keep, d+1) }
 	switch x := v.(type) {
 	case *ssa.Parameter:
+		if s, ok := bind[x]; ok {
+			return s
+		}
 		k, n := 0, 0
 		for _, q := range x.Parent().Params {
 			if types.Identical(q.Type(), x.Type()) {
@@ -253,34 +260,43 @@ func c15Expr(v ssa.Value, d int) string {
 		}
 		return x.Value.ExactString()
 	case *ssa.BinOp:
-		a, b := c15Expr(x.X, d+1), c15Expr(x.Y, d+1)
+		a, b := sub(x.X), sub(x.Y)
 		if commutative[x.Op] && a > b {
 			a, b = b, a
 		}
 		return "(" + a + " " + x.Op.String() + " " + b + ")"
 	case *ssa.UnOp:
-		return x.Op.String() + "(" + c15Expr(x.X, d+1) + ")"
+		return x.Op.String() + "(" + sub(x.X) + ")"
 	case *ssa.Convert:
-		return "conv<" + x.Type().String() + ">(" + c15Expr(x.X, d+1) + ")"
+		return "conv<" + x.Type().String() + ">(" + sub(x.X) + ")"
 	case *ssa.ChangeType:
-		return "conv<" + x.Type().String() + ">(" + c15Expr(x.X, d+1) + ")"
+		return "conv<" + x.Type().String() + ">(" + sub(x.X) + ")"
 	case *ssa.FieldAddr:
 		_, s := structOf(x.X.Type())
-		return c15Expr(x.X, d+1) + "." + s.Field(x.Field).Name()
+		return sub(x.X) + "." + s.Field(x.Field).Name()
 	case *ssa.IndexAddr:
-		return c15Expr(x.X, d+1) + "[" + c15Expr(x.Index, d+1) + "]"
+		return sub(x.X) + "[" + sub(x.Index) + "]"
 	case *ssa.Extract:
-		return fmt.Sprintf("%s#%d", c15Expr(x.Tuple, d+1), x.Index)
+		return fmt.Sprintf("%s#%d", sub(x.Tuple), x.Index)
 	case *ssa.Call:
+		var as []string
+		for _, a := range x.Call.Args {
+			as = append(as, sub(a))
+		}
+		if callee := x.Call.StaticCallee(); callee != nil && callee != keep && isOwn(callee) && callee.Blocks != nil {
+			if rs := c15Returns(callee); len(rs) == 1 && len(rs[0].Results) == 1 && len(callee.Params) == len(as) {
+				inner := map[*ssa.Parameter]string{}
+				for i, q := range callee.Params {
+					inner[q] = as[i]
+				}
+				return c15Expr(returnedValue(rs[0], 0), inner, keep, d+1)
+			}
+		}
 		name := "?dyn"
 		if b, ok := x.Call.Value.(*ssa.Builtin); ok {
 			name = b.Name()
 		} else if f := calleeObj(x); f != nil {
 			name = objName(f)
-		}
-		var as []string
-		for _, a := range x.Call.Args {
-			as = append(as, c15Expr(a, d+1))
 		}
 		return name + "(" + strings.Join(as, ",") + ")"
 	}
@@ -353,8 +369,8 @@ func c15Returns(fn *ssa.Function) []*ssa.Return {
 
 type c15Addr struct {
 	hash   *ssa.Parameter
-	bucket *ssa.IndexAddr // &t.data[ix]
-	sig    ssa.Value      // partialKey(f(hash))
+	bucket ssa.Value // &t.data[ix], possibly obtained through a helper
+	sig    ssa.Value // partialKey(f(hash))
 	err    string
 }
 
@@ -388,6 +404,18 @@ func (e *c15Env) addressing(fn *ssa.Function) c15Addr {
 				a.sig = x
 				nSig++
 			}
+		case *ssa.Call: // signature / bucket pointer computed by a helper of the hash
+			callee := x.Call.StaticCallee()
+			if callee == nil || !isOwn(callee) || !backSlice(x, sliceOpts{ThroughCalls: true})[a.hash] {
+				break
+			}
+			if e.isT(x.Type(), "partialKey") {
+				a.sig = x
+				nSig++
+			} else if pt, ok := x.Type().Underlying().(*types.Pointer); ok && e.isT(pt.Elem(), "bucket") {
+				a.bucket = x
+				nIx++
+			}
 		}
 	})
 	if nIx != 1 || nSig != 1 {
@@ -402,7 +430,7 @@ type c15Ins struct {
 	fn                        *ssa.Function
 	hash, gen, sm, value, typ *ssa.Parameter
 	depths                    []*ssa.Parameter
-	bucket                    *ssa.IndexAddr
+	bucket                    ssa.Value
 	sig                       ssa.Value
 	entStore                  *ssa.Store
 	repl                      ssa.Value            // index of the overwritten entry
@@ -600,7 +628,7 @@ func c15R1(e *c15Env) {
 	}
 	fact(max(e.k["Inf"], inv)+maxPl-1 <= maxS && maxPl-1 <= e.intMax(e.named["Depth"]), "score#range", e.named["Score"].Obj().Pos(),
 		"the largest score magnitude max(Inf=%d, |Inv|=%d) re-based by up to MaxPlies-1 = %d must fit Score (max %d)", e.k["Inf"], inv, maxPl-1, maxS)
-	c.Floor(rule, n, 13, "layout facts")
+	c.Floor(rule, n, 9, "layout facts")
 }
 
 type c15M64 struct {
@@ -711,20 +739,21 @@ func c15R2(e *c15Env) {
 		c.Undec(rule, "sibling#shape", lk.Pos(), "LookUp: %q Insert: %q", al.err, ai.err)
 		return
 	}
-	bl, bi := c15Expr(al.bucket.Index, 0), c15Expr(ai.bucket.Index, 0)
-	viaIx := func(a c15Addr, fn *ssa.Function) bool {
-		call, ok := a.bucket.Index.(*ssa.Call)
-		return ok && call.Call.StaticCallee() == e.fn["bucketIx"] && len(call.Call.Args) == 2 && call.Call.Args[0] == fn.Params[0] && call.Call.Args[1] == a.hash
+	bx0 := e.fn["bucketIx"]
+	bl, bi := c15Expr(al.bucket, nil, bx0, 0), c15Expr(ai.bucket, nil, bx0, 0)
+	viaIx := func(a c15Addr, fn *ssa.Function, got string) bool { // &t.data[bucketIx(t, hash)] of the function's own receiver and hash
+		recv, hash := c15Expr(fn.Params[0], nil, nil, 0), c15Expr(a.hash, nil, nil, 0)
+		return got == "*("+recv+".data)["+objName(fnObj(bx0))+"("+recv+","+hash+")]"
 	}
 	if strings.Contains(bl+bi, "?") {
-		c.Undec(rule, "sibling#bucket-index", al.bucket.Pos(), "bucket index expressions not comparable: %s / %s", bl, bi)
-	} else if bl == bi && !(viaIx(al, lk) && viaIx(ai, ins)) {
-		c.Undec(rule, "sibling#bucket-index", al.bucket.Pos(), "both index t.data with %s, which is not a call of bucketIx(t, hash): the range argument of bucketIx#range does not cover it", bl)
+		c.Undec(rule, "sibling#bucket-index", al.bucket.Pos(), "bucket address expressions not comparable: %s / %s", bl, bi)
+	} else if bl == bi && !(viaIx(al, lk, bl) && viaIx(ai, ins, bi)) {
+		c.Undec(rule, "sibling#bucket-index", al.bucket.Pos(), "both address the bucket as %s, which is not &t.data[bucketIx(t, hash)]: the range argument of bucketIx#range does not cover it", bl)
 	} else {
-		c.Check(bl == bi, rule, "sibling#bucket-index", ai.bucket.Pos(), "LookUp indexes t.data with %s, Insert with %s; both must be bucketIx(t, hash) of the probed/stored hash, else a key is stored in one bucket and probed in another", bl, bi)
+		c.Check(bl == bi, rule, "sibling#bucket-index", ai.bucket.Pos(), "LookUp addresses its bucket as %s, Insert as %s; both must be &t.data[bucketIx(t, hash)] of the probed/stored hash, else a key is stored in one bucket and probed in another", bl, bi)
 		n++
 	}
-	sl, si := c15Expr(al.sig, 0), c15Expr(ai.sig, 0)
+	sl, si := c15Expr(al.sig, nil, nil, 0), c15Expr(ai.sig, nil, nil, 0)
 	if strings.Contains(sl+si, "?") {
 		c.Undec(rule, "sibling#signature", al.sig.Pos(), "signature expressions not comparable: %s / %s", sl, si)
 	} else {
@@ -798,7 +827,7 @@ func c15R2(e *c15Env) {
 		c.Check(good, rule, "bucketIx#range", bx.Pos(), "%s", detail)
 		n++
 	}
-	c.Floor(rule, n, 4, "addressing obligations")
+	c.Floor(rule, n, 3, "addressing obligations")
 }
 
 // c15NarrowBits: v is a chain of unsigned conversions of root; returns the
@@ -827,155 +856,347 @@ func c15NarrowBits(e *c15Env, v, root ssa.Value) int64 {
 
 // ---------- R3 mate re-basing is a mirror ----------
 
-type c15Raw struct {
-	conds []condEdge
+// c15Set is a set of scores: sorted, disjoint, non-adjacent closed intervals.
+type c15Set [][2]int64
+
+const c15Min, c15Max = math.MinInt64, math.MaxInt64
+
+var c15Full = c15Set{{c15Min, c15Max}}
+
+func (a c15Set) not() c15Set {
+	var out c15Set
+	lo, open := int64(c15Min), true
+	for _, iv := range a {
+		if iv[0] > lo {
+			out = append(out, [2]int64{lo, iv[0] - 1})
+		}
+		if iv[1] == c15Max {
+			open = false
+			break
+		}
+		lo = iv[1] + 1
+	}
+	if open {
+		out = append(out, [2]int64{lo, c15Max})
+	}
+	return out
+}
+
+func (a c15Set) and(b c15Set) c15Set {
+	var out c15Set
+	for _, x := range a {
+		for _, y := range b {
+			if lo, hi := max(x[0], y[0]), min(x[1], y[1]); lo <= hi {
+				out = append(out, [2]int64{lo, hi})
+			}
+		}
+	}
+	return out.norm()
+}
+
+func (a c15Set) or(b c15Set) c15Set { return append(append(c15Set{}, a...), b...).norm() }
+
+func (a c15Set) norm() c15Set {
+	sort.Slice(a, func(i, j int) bool { return a[i][0] < a[j][0] })
+	var out c15Set
+	for _, iv := range a {
+		if n := len(out); n > 0 && (out[n-1][1] == c15Max || iv[0] <= out[n-1][1]+1) {
+			out[n-1][1] = max(out[n-1][1], iv[1])
+			continue
+		}
+		out = append(out, iv)
+	}
+	return out
+}
+
+func (a c15Set) eq(b c15Set) bool { return fmt.Sprint(a) == fmt.Sprint(b) }
+
+func (a c15Set) String() string {
+	if len(a) == 0 {
+		return "{}"
+	}
+	var s []string
+	for _, iv := range a {
+		lo, hi := fmt.Sprint(iv[0]), fmt.Sprint(iv[1])
+		if iv[0] == c15Min {
+			lo = "-inf"
+		}
+		if iv[1] == c15Max {
+			hi = "+inf"
+		}
+		s = append(s, "["+lo+","+hi+"]")
+	}
+	return strings.Join(s, "u")
+}
+
+// c15Alt: on the scores in set the value is score + delta*ply.
+type c15Alt struct {
+	set   c15Set
 	delta int
 }
 
-type c15Piece struct {
-	lo, hi int64
-	delta  int
-}
-
-type c15Eval struct {
+// c15Ev evaluates, over all scores at once, which score sets reach a block /
+// make a condition true, and expresses values as score + delta*ply. Conditions
+// that are not about the score count as "may go either way" (over-approximation);
+// the caller's partition test (pairwise disjoint, covering) then proves exactness
+// or leaves the rule undecided. Static calls to chess-3 functions are followed
+// with parameters bound to score / ply arguments.
+type c15Ev struct {
 	isRoot, isPly func(ssa.Value) bool
+	alias         map[ssa.Value]int // callee parameters bound to 1 = score, 2 = ply
+	reach         map[*ssa.BasicBlock]c15Set
+	busy          map[*ssa.BasicBlock]bool
+	adjusted      bool        // a comparison tested an already adjusted score
+	unknown       []ssa.Value // conditions that could not be expressed as score sets
+	why           string
+	depth         int
 }
 
-// eval expresses v as root + delta*ply under branch conditions.
-func (ev *c15Eval) eval(v ssa.Value, d int) ([]c15Raw, string) {
-	if ev.isRoot(v) {
-		return []c15Raw{{}}, ""
+func c15NewEv(isRoot, isPly func(ssa.Value) bool) *c15Ev {
+	return &c15Ev{isRoot: isRoot, isPly: isPly, alias: map[ssa.Value]int{}, reach: map[*ssa.BasicBlock]c15Set{}, busy: map[*ssa.BasicBlock]bool{}}
+}
+
+func (ev *c15Ev) root(v ssa.Value) bool { return ev.alias[v] == 1 || ev.isRoot(v) }
+func (ev *c15Ev) ply(v ssa.Value) bool {
+	return ev.alias[stripConv(v)] == 2 || ev.alias[v] == 2 || ev.isPly(v)
+}
+
+// bind prepares following call: callee parameters that receive the score or the ply become aliases.
+func (ev *c15Ev) bind(call *ssa.Call) *ssa.Function {
+	callee := call.Call.StaticCallee()
+	if callee == nil || !isOwn(callee) || callee.Blocks == nil || len(callee.Params) != len(call.Call.Args) || ev.depth > 4 {
+		return nil
 	}
-	if d > 8 {
-		return nil, "expression too deep"
+	for i, a := range call.Call.Args {
+		switch {
+		case ev.root(a):
+			ev.alias[callee.Params[i]] = 1
+		case ev.ply(a):
+			ev.alias[callee.Params[i]] = 2
+		}
+	}
+	return callee
+}
+
+// truth: the scores for which bool v is true; exact=false means over-approximated (v unknown).
+func (ev *c15Ev) truth(v ssa.Value) (c15Set, bool) {
+	switch x := v.(type) {
+	case *ssa.Const:
+		if k, _ := constOf(x); k != 0 {
+			return c15Full, true
+		}
+		return nil, true
+	case *ssa.UnOp:
+		if x.Op == token.NOT {
+			if t, exact := ev.truth(x.X); exact {
+				return t.not(), true
+			}
+		}
+	case *ssa.BinOp:
+		sx, op, k, ok := c15RelK(condEdge{Cond: x, True: true})
+		if !ok {
+			break
+		}
+		alts, ok := ev.alts(sx)
+		if !ok {
+			break
+		}
+		var iv c15Set
+		switch op {
+		case token.LSS:
+			iv = c15Set{{c15Min, k - 1}}
+		case token.LEQ:
+			iv = c15Set{{c15Min, k}}
+		case token.GTR:
+			iv = c15Set{{k + 1, c15Max}}
+		case token.GEQ:
+			iv = c15Set{{k, c15Max}}
+		case token.EQL:
+			iv = c15Set{{k, k}}
+		case token.NEQ:
+			iv = c15Set{{k, k}}.not()
+		}
+		var out c15Set
+		for _, a := range alts {
+			if a.delta != 0 {
+				ev.adjusted = true // justified by the thresholds#separated obligation
+			}
+			out = out.or(a.set.and(iv))
+		}
+		return out, true
+	case *ssa.Phi:
+		var out c15Set
+		exact := true
+		for i, ed := range x.Edges {
+			t, ex := ev.truth(ed)
+			out, exact = out.or(t.and(ev.edge(x.Block().Preds[i], x.Block()))), exact && ex
+		}
+		return out, exact
+	case *ssa.Call:
+		if callee := ev.bind(x); callee != nil {
+			ev.depth++
+			defer func() { ev.depth-- }()
+			var out c15Set
+			exact := true
+			for _, r := range c15Returns(callee) {
+				if len(r.Results) != 1 {
+					return c15Full, false
+				}
+				t, ex := ev.truth(returnedValue(r, 0))
+				out, exact = out.or(t.and(ev.reachOf(r.Block()))), exact && ex
+			}
+			return out, exact
+		}
+	}
+	ev.unknown = append(ev.unknown, v)
+	return c15Full, false
+}
+
+// edge: scores with which control can pass pred -> succ.
+func (ev *c15Ev) edge(pred, succ *ssa.BasicBlock) c15Set {
+	r := ev.reachOf(pred)
+	if n := len(pred.Instrs); n > 0 {
+		if iff, ok := pred.Instrs[n-1].(*ssa.If); ok && pred.Succs[0] != pred.Succs[1] {
+			t, exact := ev.truth(iff.Cond)
+			switch {
+			case !exact:
+			case pred.Succs[0] == succ:
+				r = r.and(t)
+			default:
+				r = r.and(t.not())
+			}
+		}
+	}
+	return r
+}
+
+// reachOf: scores with which b can be reached (exact in acyclic code; inside
+// cycles the dominating branch conditions are used instead).
+func (ev *c15Ev) reachOf(b *ssa.BasicBlock) c15Set {
+	if r, ok := ev.reach[b]; ok {
+		return r
+	}
+	if b.Index == 0 {
+		return c15Full
+	}
+	if ev.busy[b] {
+		r := c15Full
+		for _, ce := range controllingConds(b) {
+			if t, exact := ev.truth(ce.Cond); exact && ce.True {
+				r = r.and(t)
+			} else if exact {
+				r = r.and(t.not())
+			}
+		}
+		return r
+	}
+	ev.busy[b] = true
+	var r c15Set
+	for _, p := range b.Preds {
+		r = r.or(ev.edge(p, b))
+	}
+	delete(ev.busy, b)
+	ev.reach[b] = r
+	return r
+}
+
+// alts expresses v as score + delta*ply, per score set.
+func (ev *c15Ev) alts(v ssa.Value) ([]c15Alt, bool) {
+	if ev.root(v) {
+		return []c15Alt{{c15Full, 0}}, true
+	}
+	restrict := func(as []c15Alt, s c15Set) []c15Alt {
+		var out []c15Alt
+		for _, a := range as {
+			if t := a.set.and(s); len(t) > 0 {
+				out = append(out, c15Alt{t, a.delta})
+			}
+		}
+		return out
 	}
 	switch x := v.(type) {
 	case *ssa.BinOp:
-		var base ssa.Value
-		sign := 1
+		base, sign := ssa.Value(nil), 1
 		switch {
-		case x.Op == token.ADD && ev.isPly(x.Y):
+		case x.Op == token.ADD && ev.ply(x.Y):
 			base = x.X
-		case x.Op == token.ADD && ev.isPly(x.X):
+		case x.Op == token.ADD && ev.ply(x.X):
 			base = x.Y
-		case x.Op == token.SUB && ev.isPly(x.Y):
+		case x.Op == token.SUB && ev.ply(x.Y):
 			base, sign = x.X, -1
 		default:
-			return nil, fmt.Sprintf("score is combined by %s with something other than the ply parameter", x.Op)
+			ev.why = fmt.Sprintf("the score is combined by %s with something other than the ply", x.Op)
+			return nil, false
 		}
-		ps, why := ev.eval(base, d+1)
-		for i := range ps {
-			ps[i].delta += sign
+		as, ok := ev.alts(base)
+		for i := range as {
+			as[i].delta += sign
 		}
-		return ps, why
+		return as, ok
 	case *ssa.Phi:
-		var out []c15Raw
+		var out []c15Alt
 		for i, ed := range x.Edges {
-			ps, why := ev.eval(ed, d+1)
-			if why != "" {
-				return nil, why
-			}
-			ec := c15EdgeConds(x.Block().Preds[i], x.Block())
-			for _, p := range ps {
-				out = append(out, c15Raw{append(append([]condEdge{}, p.conds...), ec...), p.delta})
-			}
-		}
-		return out, ""
-	}
-	return nil, fmt.Sprintf("score flows through %T", v)
-}
-
-// pieces turns raw pieces into a partition of the score axis.
-func (ev *c15Eval) pieces(raw []c15Raw) ([]c15Piece, string) {
-	type key struct {
-		c ssa.Value
-		t bool
-	}
-	foreign := map[key]int{}
-	var out []c15Piece
-	for _, r := range raw {
-		lo, hi := int64(math.MinInt64), int64(math.MaxInt64)
-		seenF := map[key]bool{}
-		for _, ce := range r.conds {
-			x, op, k, ok := c15RelK(ce)
-			if ok {
-				if _, why := ev.eval(x, 0); why != "" {
-					ok = false
-				}
-			}
+			as, ok := ev.alts(ed)
 			if !ok {
-				if !seenF[key{ce.Cond, ce.True}] {
-					seenF[key{ce.Cond, ce.True}] = true
-					foreign[key{ce.Cond, ce.True}]++
+				return nil, false
+			}
+			out = append(out, restrict(as, ev.edge(x.Block().Preds[i], x.Block()))...)
+		}
+		return out, true
+	case *ssa.Call:
+		if callee := ev.bind(x); callee != nil {
+			ev.depth++
+			defer func() { ev.depth-- }()
+			var out []c15Alt
+			for _, r := range c15Returns(callee) {
+				if len(r.Results) != 1 {
+					return nil, false
 				}
-				continue
+				as, ok := ev.alts(returnedValue(r, 0))
+				if !ok {
+					return nil, false
+				}
+				out = append(out, restrict(as, ev.reachOf(r.Block()))...)
 			}
-			switch op {
-			case token.LSS:
-				hi = min(hi, k-1)
-			case token.LEQ:
-				hi = min(hi, k)
-			case token.GTR:
-				lo = max(lo, k+1)
-			case token.GEQ:
-				lo = max(lo, k)
-			case token.EQL:
-				lo, hi = max(lo, k), min(hi, k)
-			default:
-				return nil, "score is tested with != against a constant"
-			}
-		}
-		if lo <= hi {
-			out = append(out, c15Piece{lo, hi, r.delta})
-		} else {
-			for k := range seenF {
-				foreign[k]-- // infeasible piece: does not count
-			}
+			return out, true
 		}
 	}
-	for k, n := range foreign {
-		if n != len(out) {
-			return nil, fmt.Sprintf("the adjustment depends on a condition that is not a comparison of the score with a constant (%s)", k.c.Name())
-		}
+	if ev.why == "" {
+		ev.why = fmt.Sprintf("the score flows through a %T", v)
 	}
-	sort.Slice(out, func(i, j int) bool { return out[i].lo < out[j].lo })
-	var merged []c15Piece
-	for i, p := range out {
-		if i == 0 {
-			if p.lo != math.MinInt64 {
-				return nil, "score ranges do not cover the axis"
-			}
-			merged = append(merged, p)
-			continue
-		}
-		last := &merged[len(merged)-1]
-		switch {
-		case p.lo == last.lo && p.hi == last.hi && p.delta == last.delta: // duplicate path
-		case p.lo != last.hi+1:
-			return nil, fmt.Sprintf("score ranges overlap or leave a gap at %d", p.lo)
-		case p.delta == last.delta:
-			last.hi = p.hi
-		default:
-			merged = append(merged, p)
-		}
-	}
-	if len(merged) == 0 || merged[len(merged)-1].hi != math.MaxInt64 {
-		return nil, "score ranges do not cover the axis"
-	}
-	return merged, ""
+	return nil, false
 }
 
-func c15PieceString(ps []c15Piece) string {
+// c15Partition groups alternatives by delta and demands a partition of the score axis.
+func c15Partition(as []c15Alt) (map[int]c15Set, string) {
+	by := map[int]c15Set{}
+	all := c15Set{}
+	for _, a := range as {
+		by[a.delta] = by[a.delta].or(a.set)
+	}
+	for d, s := range by {
+		if len(all.and(s)) > 0 {
+			return nil, fmt.Sprintf("for scores %s the adjustment is not determined by the score alone (delta %+d overlaps another)", all.and(s), d)
+		}
+		all = all.or(s)
+	}
+	if !all.eq(c15Full) {
+		return nil, fmt.Sprintf("scores %s are not accounted for", all.not())
+	}
+	return by, ""
+}
+
+func c15ByString(by map[int]c15Set) string {
 	var s []string
-	for _, p := range ps {
-		lo, hi := fmt.Sprint(p.lo), fmt.Sprint(p.hi)
-		if p.lo == math.MinInt64 {
-			lo = "-inf"
+	for _, d := range []int{-1, 0, 1} {
+		if len(by[d]) > 0 {
+			s = append(s, fmt.Sprintf("%s:%+d*ply", by[d], d))
 		}
-		if p.hi == math.MaxInt64 {
-			hi = "+inf"
+	}
+	for d, set := range by {
+		if d < -1 || d > 1 {
+			s = append(s, fmt.Sprintf("%s:%+d*ply", set, d))
 		}
-		s = append(s, fmt.Sprintf("[%s,%s]:%+d*ply", lo, hi, p.delta))
 	}
 	return strings.Join(s, " ")
 }
@@ -988,13 +1209,13 @@ func c15R3(e *c15Env) {
 		return
 	}
 	in := e.ins
-	// Insert side
+	// Insert side: the value stored into entry.value as a function of the score parameter
 	var ply *ssa.Parameter
 	foreignPly := false
-	evI := &c15Eval{isRoot: func(v ssa.Value) bool { return v == in.value }}
+	evI := c15NewEv(func(v ssa.Value) bool { return v == in.value }, nil)
 	evI.isPly = func(v ssa.Value) bool {
 		q, ok := stripConv(v).(*ssa.Parameter)
-		if !ok || !e.isT(q.Type(), "Depth") {
+		if !ok || q.Parent() != in.fn || !e.isT(q.Type(), "Depth") {
 			return false
 		}
 		if ply != nil && ply != q {
@@ -1003,80 +1224,88 @@ func c15R3(e *c15Env) {
 		ply = q
 		return true
 	}
-	rawI, why := evI.eval(in.stored["value"], 0)
-	var pi []c15Piece
-	if why == "" {
-		pi, why = evI.pieces(rawI)
+	var bi map[int]c15Set
+	asI, ok := evI.alts(in.stored["value"])
+	why := evI.why
+	if ok {
+		bi, why = c15Partition(asI)
 	}
 	if why != "" {
 		c.Undec(rule, "Insert#rebase", in.stored["value"].Pos(), "stored score is not a piecewise `score ± ply` of the score parameter: %s", why)
 		return
 	}
-	// Value side
+	// Value side: every returned value as a function of e.value
 	vf := e.fn["Value"]
-	evV := &c15Eval{
-		isRoot: func(v ssa.Value) bool { b, ok := e.loadOf(v, "entry", "value"); return ok && b == vf.Params[0] },
-		isPly:  func(v ssa.Value) bool { return len(vf.Params) == 2 && stripConv(v) == vf.Params[1] },
+	isRecv := func(b ssa.Value) bool { // the receiver, or the local copy of a value receiver
+		if al, ok := b.(*ssa.Alloc); ok && al.Referrers() != nil {
+			for _, r := range *al.Referrers() {
+				if st, ok := r.(*ssa.Store); ok && st.Addr == ssa.Value(al) && st.Val == ssa.Value(vf.Params[0]) {
+					return true
+				}
+			}
+		}
+		return b == ssa.Value(vf.Params[0])
 	}
-	var rawV []c15Raw
+	evV := c15NewEv(
+		func(v ssa.Value) bool {
+			if f, ok := v.(*ssa.Field); ok && f.X == ssa.Value(vf.Params[0]) {
+				_, st := structOf(f.X.Type())
+				return st != nil && st.Field(f.Field) == e.field("entry", "value")
+			}
+			b, ok := e.loadOf(v, "entry", "value")
+			return ok && isRecv(b)
+		},
+		func(v ssa.Value) bool { return len(vf.Params) == 2 && stripConv(v) == vf.Params[1] })
+	var asV []c15Alt
+	why = ""
 	allInstrs(vf, func(i ssa.Instruction) {
-		if _, ok := i.(*ssa.Store); ok {
-			why = "entry.Value contains a store"
+		if st, ok := i.(*ssa.Store); ok && e.group(st.Addr) != "" {
+			why = "entry.Value stores to the table"
 		}
 	})
 	for _, r := range c15Returns(vf) {
-		ps, w := evV.eval(r.Results[0], 0)
-		if w != "" {
-			why = w
+		as, ok := evV.alts(returnedValue(r, 0))
+		if !ok && why == "" {
+			why = evV.why
 		}
-		cc := controllingConds(r.Block())
-		for _, p := range ps {
-			rawV = append(rawV, c15Raw{append(append([]condEdge{}, p.conds...), cc...), p.delta})
+		for _, a := range as {
+			if t := a.set.and(evV.reachOf(r.Block())); len(t) > 0 {
+				asV = append(asV, c15Alt{t, a.delta})
+			}
 		}
 	}
-	var pv []c15Piece
+	var bv map[int]c15Set
 	if why == "" {
-		pv, why = evV.pieces(rawV)
+		bv, why = c15Partition(asV)
 	}
 	if why != "" {
 		c.Undec(rule, "Value#rebase", vf.Pos(), "entry.Value is not a piecewise `stored ± ply` of e.value: %s", why)
 		return
 	}
-	si, sv := c15PieceString(pi), c15PieceString(pv)
+	si, sv := c15ByString(bi), c15ByString(bv)
 	// Insert: away from zero, by the ply parameter (not the depth that is packed)
-	away, nz := len(pi) >= 2, 0
-	for _, p := range pi {
-		switch {
-		case p.delta == 0:
-			away = away && p.lo <= 0 && p.hi >= 0
-		case p.delta == -1:
-			away = away && p.hi < 0
-			nz++
-		case p.delta == 1:
-			away = away && p.lo > 0
-			nz++
-		default:
-			away = false
-		}
-	}
-	c.Check(away && nz == 2, rule, "Insert#away-from-zero", in.stored["value"].Pos(), "Insert stores score -> %s; required: one range below zero moved down by ply, one above zero moved up by ply, the range containing 0 unchanged (so that a re-based score stays on its side of the threshold it was tested against)", si)
+	dn, mid, up := bi[-1], bi[0], bi[1]
+	away := len(bi) == 3 && len(dn) == 1 && len(mid) == 1 && len(up) == 1 && dn[0][1] < 0 && up[0][0] > 0 && mid[0][0] <= 0 && mid[0][1] >= 0
+	c.Check(away, rule, "Insert#away-from-zero", in.stored["value"].Pos(), "Insert stores score -> %s; required: one range below zero moved down by ply, one above zero moved up by ply, the range containing 0 unchanged (so that a re-based score stays on its side of the threshold it was tested against)", si)
 	c.Check(ply != nil && !foreignPly && ply != in.packedDepth, rule, "Insert#ply-parameter", in.stored["value"].Pos(), "Insert re-bases by one Depth parameter that is not the depth packed into the entry (re-basing by the search depth instead of the ply corrupts every mate score)")
 	// mirror
-	mirror := len(pi) == len(pv)
-	for i := 0; mirror && i < len(pi); i++ {
-		mirror = pi[i].lo == pv[i].lo && pi[i].hi == pv[i].hi && pi[i].delta == -pv[i].delta
+	mirror := len(bi) == len(bv)
+	for d, set := range bi {
+		mirror = mirror && set.eq(bv[-d])
 	}
-	c.Check(mirror, rule, "mirror#Insert-Value", vf.Pos(), "Insert: %s; entry.Value: %s — the ranges must coincide (same thresholds, same strictness) with opposite ply sign, otherwise a mate score stored at ply p is not read back as the same mate at ply p", si, sv)
+	c.Check(mirror, rule, "mirror#Insert-Value", vf.Pos(), "Insert: %s; entry.Value: %s — the ranges must coincide (same thresholds, same strictness) with opposite ply sign, otherwise a score stored at ply p is not read back as the same score (mate distance) at ply p", si, sv)
 	// thresholds further apart than any ply: a score moved toward zero cannot reach the other range
-	sep := len(pi) == 3 && pi[1].hi-pi[1].lo > e.intMax(e.named["Depth"])
-	c.Check(sep, rule, "thresholds#separated", vf.Pos(), "the unchanged range %s is wider than the largest Depth (%d), so sequential tests on an already adjusted score see the range of the original score", c15PieceString(pi[min(1, len(pi)-1):min(2, len(pi))]), e.intMax(e.named["Depth"]))
-	nzv := 0
-	for _, p := range pv {
-		if p.delta != 0 {
-			nzv++
+	sep := len(mid) == 1 && mid[0][0] != c15Min && mid[0][1] != c15Max && mid[0][1]-mid[0][0] > e.intMax(e.named["Depth"])
+	c.Check(sep, rule, "thresholds#separated", vf.Pos(), "the unchanged range %s is wider than the largest Depth (%d), so sequential tests on an already adjusted score see the range of the original score (needed: %v)", mid, e.intMax(e.named["Depth"]), evI.adjusted || evV.adjusted)
+	nz := 0
+	for _, by := range []map[int]c15Set{bi, bv} {
+		for d, set := range by {
+			if d != 0 && len(set) > 0 {
+				nz++
+			}
 		}
 	}
-	c.Floor(rule, nz+nzv, 4, "re-basing branches (2 in Insert, 2 in entry.Value)")
+	c.Floor(rule, nz, 4, "re-basing branches (2 in Insert, 2 in entry.Value)")
 }
 
 // ---------- R4 lane bookkeeping in Insert ----------
@@ -1090,34 +1319,16 @@ func c15R4(e *c15Env) {
 	fnn := "transp.(*Table).Insert#"
 	kb := e.k["partialKeyBits"]
 	n := 0
-	// signature comparison: partialKey(keys) == sig, keys a loop phi
-	var sigCond *ssa.BinOp
-	var keys *ssa.Phi
+	// the loop counter: phi{0, self+1} that indexes bucket.entries
+	var iPhi *ssa.Phi
 	allInstrs(in.fn, func(i ssa.Instruction) {
-		b, ok := i.(*ssa.BinOp)
-		if !ok || b.Op != token.EQL {
+		ia, ok := i.(*ssa.IndexAddr)
+		if !ok {
 			return
 		}
-		for _, o := range [][2]ssa.Value{{b.X, b.Y}, {b.Y, b.X}} {
-			if o[0] == in.sig && e.isT(o[1].Type(), "partialKey") {
-				if ph, ok := stripConv(o[1]).(*ssa.Phi); ok && sigCond == nil {
-					sigCond, keys = b, ph
-				} else {
-					keys = nil
-				}
-			}
-		}
-	})
-	if sigCond == nil || keys == nil {
-		c.Undec(rule, fnn+"match-lane", in.fn.Pos(), "no unique comparison `partialKey(laneWord) == signature` with laneWord a loop variable")
-		return
-	}
-	// lane walk: keys = pKeys, keys >>= partialKeyBits; i = 0, i++ in the same loop header
-	var iPhi *ssa.Phi
-	for _, instr := range keys.Block().Instrs {
-		ph, ok := instr.(*ssa.Phi)
-		if !ok {
-			break
+		ph, isPhi := ia.Index.(*ssa.Phi)
+		if b, ok := e.fa(ia.X, "bucket", "entries"); !ok || b != in.bucket || !isPhi {
+			return
 		}
 		zero, step := 0, 0
 		for _, ed := range ph.Edges {
@@ -1130,48 +1341,112 @@ func c15R4(e *c15Env) {
 		if zero >= 1 && step >= 1 && zero+step == len(ph.Edges) {
 			iPhi = ph
 		}
+	})
+	// signature comparison: partialKey(laneWord) ==/!= sig
+	var sigCond *ssa.BinOp
+	var lane ssa.Value
+	nCmp := 0
+	allInstrs(in.fn, func(i ssa.Instruction) {
+		b, ok := i.(*ssa.BinOp)
+		if !ok || b.Op != token.EQL && b.Op != token.NEQ {
+			return
+		}
+		for _, o := range [][2]ssa.Value{{b.X, b.Y}, {b.Y, b.X}} {
+			if o[0] == in.sig && e.isT(o[1].Type(), "partialKey") {
+				sigCond, lane = b, stripConv(o[1])
+				nCmp++
+			}
+		}
+	})
+	// matchIdx: the lane index at which "the signature matches" is decided; sigVal/sigPos: the bool value deciding it
+	var matchIdx, sigVal ssa.Value
+	sigPos := true
+	if calls := callsIn(in.fn, "transp.match64"); nCmp == 0 && len(calls) == 1 {
+		// Insert asks match64 (whose lane arithmetic is C15.R1's) instead of comparing lane by lane
+		call, _ := calls[0].(*ssa.Call)
+		if call != nil && call.Referrers() != nil {
+			for _, r := range *call.Referrers() {
+				if ex, ok := r.(*ssa.Extract); ok && ex.Index == 0 {
+					matchIdx = ex
+				} else if ok && ex.Index == 1 {
+					sigVal = ex
+				}
+			}
+		}
+		if matchIdx == nil || sigVal == nil {
+			c.Undec(rule, fnn+"match-lane", in.fn.Pos(), "result of match64 in Insert is not used as (lane, ok)")
+			return
+		}
+		b, okK := e.loadOf(call.Call.Args[0], "bucket", "pKeys")
+		c.Check(okK && b == in.bucket && call.Call.Args[1] == in.sig, rule, fnn+"lane-walk", call.Pos(), "the matching lane is match64(bucket.pKeys, signature) of the bucket being stored into and the signature being stored")
+		n++
+	} else if sigCond == nil || nCmp != 1 || iPhi == nil {
+		c.Undec(rule, fnn+"match-lane", in.fn.Pos(), "no unique comparison of the signature with `partialKey(lane word)` inside a loop `i = 0; i++` over bucket.entries[i] (%d comparisons), and no single match64 call", nCmp)
+		return
+	} else {
+		matchIdx, sigVal, sigPos = iPhi, sigCond, sigCond.Op == token.EQL
 	}
-	walk := iPhi != nil
-	shifts := 0
-	for j, ed := range keys.Edges {
-		first := false // edge entering the loop: i = 0
-		if iPhi != nil {
-			_, first = constOf(iPhi.Edges[j])
+	if matchIdx == ssa.Value(iPhi) {
+		if x, k, ok := c15KBin(lane, token.AND); ok && k == 1<<uint(kb)-1 { // explicit lane mask before the truncating conversion
+			lane = stripConv(x)
 		}
-		if b, ok := e.loadOf(ed, "bucket", "pKeys"); ok && b == in.bucket && first {
-			continue
+		// the lane word compared while entry i is examined is lane i: either a running copy of
+		// pKeys shifted by partialKeyBits on every i++, or pKeys >> i*partialKeyBits read directly
+		walk, known := false, false
+		if keys, ok := lane.(*ssa.Phi); ok && keys.Block() == iPhi.Block() {
+			walk, known = true, true
+			shifts := 0
+			for j, ed := range keys.Edges {
+				_, first := constOf(iPhi.Edges[j]) // edge entering the loop: i = 0
+				if b, ok := e.loadOf(ed, "bucket", "pKeys"); ok && b == in.bucket && first {
+					continue
+				}
+				if x, k, ok := c15KBin(ed, token.SHR); ok && x == keys && k == kb && !first {
+					shifts++
+					continue
+				}
+				walk = false
+			}
+			walk = walk && shifts >= 1
+		} else if sh, ok := lane.(*ssa.BinOp); ok && sh.Op == token.SHR {
+			if b, ok := e.loadOf(sh.X, "bucket", "pKeys"); ok && b == in.bucket {
+				cnt := stripConv(sh.Y)
+				r, stride, okM := c15KBin(cnt, token.MUL)
+				if !okM {
+					if r2, k, okS := c15KBin(cnt, token.SHL); okS {
+						r, stride, okM = r2, 1<<uint(k), true
+					}
+				}
+				if okM && stripConv(r) == ssa.Value(iPhi) {
+					walk, known = stride == kb, true
+				}
+			}
 		}
-		if x, k, ok := c15KBin(ed, token.SHR); ok && x == keys && k == kb && !first {
-			shifts++
-			continue
-		}
-		walk = false
-	}
-	bound := int64(-1)
-	if iPhi != nil {
+		bound := int64(-1)
 		allInstrs(in.fn, func(i ssa.Instruction) {
 			v, isV := i.(ssa.Value)
 			if !isV {
 				return
 			}
 			if x, k, ok := c15KBin(v, token.LSS); ok {
-				if x == iPhi {
+				if x == ssa.Value(iPhi) {
 					bound = k
-				} else if y, one, ok := c15KBin(x, token.ADD); ok && y == iPhi && one == 1 {
+				} else if y, one, ok := c15KBin(x, token.ADD); ok && y == ssa.Value(iPhi) && one == 1 {
 					bound = k
 				}
 			}
 		})
-	}
-	c.Check(walk && shifts >= 1 && bound == e.k["bucketEntryCnt"], rule, fnn+"lane-walk", keys.Pos(),
-		"the lane word starts as bucket.pKeys and is shifted right by partialKeyBits (%d) exactly when the entry index, starting at 0, is incremented; the loop bound (%d) is bucketEntryCnt (%d): lane i is compared while entry i is examined", kb, bound, e.k["bucketEntryCnt"])
-	n++
-	if iPhi == nil {
-		return
-	}
+		if !known || bound < 0 {
+			c.Undec(rule, fnn+"lane-walk", sigCond.Pos(), "the lane word compared with the signature is neither a copy of bucket.pKeys shifted once per iteration nor bucket.pKeys >> i*k, or the loop bound is not a constant")
+			return
+		}
+		c.Check(walk && bound == e.k["bucketEntryCnt"], rule, fnn+"lane-walk", sigCond.Pos(),
+			"while entry i is examined the signature is compared with lane i of bucket.pKeys (stride partialKeyBits = %d, starting at lane 0 with i = 0); the loop bound (%d) is bucketEntryCnt (%d)", kb, bound, e.k["bucketEntryCnt"])
+		n++
+	} // lane-by-lane comparison
 	isTarget := func(v ssa.Value) bool { // &bucket.entries[i]
 		ia, ok := v.(*ssa.IndexAddr)
-		if !ok || ia.Index != iPhi {
+		if !ok || ia.Index != matchIdx {
 			return false
 		}
 		b, ok := e.fa(ia.X, "bucket", "entries")
@@ -1185,7 +1460,13 @@ func c15R4(e *c15Env) {
 		}
 		return false
 	}
-	sigTrue := func(ce condEdge) bool { return ce.Cond == sigCond && ce.True }
+	sigTrue := func(ce condEdge) bool { // the branch taken means "lane i holds the signature"
+		cond, pos := ce.Cond, ce.True
+		for u, ok := cond.(*ssa.UnOp); ok && u.Op == token.NOT; u, ok = cond.(*ssa.UnOp) {
+			cond, pos = u.X, !pos
+		}
+		return cond == sigVal && pos == sigPos
+	}
 
 	// replace: on a signature match the matching lane is the one overwritten
 	rp, isPhi := in.repl.(*ssa.Phi)
@@ -1196,12 +1477,21 @@ func c15R4(e *c15Env) {
 		for i, ed := range rp.Edges {
 			if has(c15EdgeConds(rp.Block().Preds[i], rp.Block()), sigTrue) {
 				onMatch++
-				if ed != iPhi {
+				if ed != matchIdx {
 					good, detail = false, "after a signature match at lane i the entry overwritten is not entry i: the bucket then holds the signature twice and LookUp may return the stale one"
 				}
 				continue
 			}
-			for v := range backSlice(ed, sliceOpts{Stop: func(v ssa.Value) bool { return v == iPhi }}) {
+			isCounter := func(v ssa.Value) bool { // phi{0, self+1}: a lane index of some loop over the bucket
+				ph, ok := v.(*ssa.Phi)
+				for _, ed := range c15Edges(ph) {
+					k, isk := constOf(ed)
+					x, one, isStep := c15KBin(ed, token.ADD)
+					ok = ok && (isk && k == 0 || isStep && x == v && one == 1)
+				}
+				return ok
+			}
+			for v := range backSlice(ed, sliceOpts{Stop: isCounter}) {
 				switch x := v.(type) {
 				case *ssa.Phi:
 				case *ssa.Const:
@@ -1226,16 +1516,50 @@ func c15R4(e *c15Env) {
 	}
 
 	// pKeys update: clear and set the lane of the overwritten entry
+	// (in Insert itself, or in a helper it calls next to the entry store with bucket, lane and signature as arguments)
+	ufn, bucketV, sigV, replV, wantBlk := in.fn, ssa.Value(in.bucket), in.sig, stripConv(in.repl), in.entStore.Block()
 	var last *ssa.Store
 	sameBlock := true
-	allInstrs(in.fn, func(i ssa.Instruction) {
-		if st, ok := i.(*ssa.Store); ok {
-			if b, ok := e.fa(st.Addr, "bucket", "pKeys"); ok && b == in.bucket {
-				last = st
-				sameBlock = sameBlock && st.Block() == in.entStore.Block()
+	scan := func() {
+		last, sameBlock = nil, true
+		allInstrs(ufn, func(i ssa.Instruction) {
+			if st, ok := i.(*ssa.Store); ok {
+				if b, ok := e.fa(st.Addr, "bucket", "pKeys"); ok && b == bucketV {
+					last = st
+					sameBlock = sameBlock && st.Block() == wantBlk
+				}
+			}
+		})
+	}
+	if scan(); last == nil {
+		for _, i := range in.entStore.Block().Instrs {
+			call, ok := i.(*ssa.Call)
+			if !ok {
+				continue
+			}
+			callee := call.Call.StaticCallee()
+			if callee == nil || !isOwn(callee) || callee.Blocks == nil || len(callee.Params) != len(call.Call.Args) {
+				continue
+			}
+			var pb, ps, pr ssa.Value
+			for j, a := range call.Call.Args {
+				switch {
+				case a == ssa.Value(in.bucket):
+					pb = callee.Params[j]
+				case c15Under(a, in.sig):
+					ps = callee.Params[j]
+				case stripConv(a) == stripConv(in.repl):
+					pr = callee.Params[j]
+				}
+			}
+			if pb != nil && ps != nil && pr != nil {
+				ufn, bucketV, sigV, replV, wantBlk = callee, pb, ps, pr, callee.Blocks[0]
+				if scan(); last != nil {
+					break
+				}
 			}
 		}
-	})
+	}
 	if last == nil || !sameBlock {
 		c.Undec(rule, fnn+"pKeys-update", in.entStore.Pos(), "bucket.pKeys is not updated in the block that overwrites the entry")
 	} else {
@@ -1243,7 +1567,7 @@ func c15R4(e *c15Env) {
 		var resolve func(v ssa.Value) ssa.Value
 		resolve = func(v ssa.Value) ssa.Value {
 			if u, ok := v.(*ssa.UnOp); ok && u.Op == token.MUL {
-				if b, ok := e.fa(u.X, "bucket", "pKeys"); ok && b == in.bucket {
+				if b, ok := e.fa(u.X, "bucket", "pKeys"); ok && b == bucketV {
 					if f := c15Forward(u); f != nil {
 						return resolve(f)
 					}
@@ -1292,13 +1616,13 @@ func c15R4(e *c15Env) {
 				}
 				clrLane, clrStride = laneOf(mk.Y)
 				setLane, setStride = laneOf(set.Y)
-				setSig = c15Under(set.X, in.sig)
+				setSig = c15Under(set.X, sigV)
 			}
 		}
 		if !shape || clrLane == nil || setLane == nil {
 			c.Undec(rule, fnn+"pKeys-update", last.Pos(), "final bucket.pKeys is not `old &^ (laneMask << r*k) | uint64(signature) << r*k`")
 		} else {
-			r := stripConv(in.repl)
+			r := replV
 			clrOK, setOK := clrLane == r && clrStride == kb, setLane == r && setStride == kb
 			c.Check(maskOK && setSig && clrOK && setOK, rule, fnn+"pKeys-update", last.Pos(),
 				"final pKeys = old with one lane cleared and the signature or-ed in: lane mask is 2^partialKeyBits-1: %v; value set is the compared signature: %v; lane cleared is replace*partialKeyBits: %v; lane set is replace*partialKeyBits: %v (replace = index of the overwritten entry). A mismatch leaves the signature of one key on the entry of another", maskOK, setSig, clrOK, setOK)
@@ -1306,8 +1630,9 @@ func c15R4(e *c15Env) {
 		}
 	}
 
-	// early return (keep deeper): only under match ∧ typ != Exact ∧ depth > d+2 ∧ same generation.
-	// Each test: 1 = present and right, 0 = present but wrong, -1 = not recognised on this path.
+	// early return (keep deeper): can execute only with match ∧ typ != Exact ∧ depth > d+2 ∧ same generation.
+	// Decided by path-sensitive simulation over named atoms, so the arrangement of the tests
+	// (&&, nested ifs, ||, named boolean locals, De Morgan, swapped operands) does not matter.
 	typeVals := map[int64]bool{}
 	sc := e.named["Type"].Obj().Pkg().Scope()
 	for _, name := range sc.Names() {
@@ -1316,58 +1641,112 @@ func c15R4(e *c15Env) {
 			typeVals[v] = true
 		}
 	}
+	classify := func(v ssa.Value) (string, bool, bool) {
+		if v == sigVal {
+			return "sig", !sigPos, true
+		}
+		b, ok := v.(*ssa.BinOp)
+		if !ok {
+			return "", false, false
+		}
+		if x, op, k, ok := c15RelK(condEdge{Cond: b, True: true}); ok && x == ssa.Value(in.typ) {
+			switch op {
+			case token.EQL, token.NEQ:
+				return fmt.Sprintf("typ==%d", k), op == token.NEQ, true
+			case token.LSS, token.GEQ:
+				return fmt.Sprintf("typ<%d", k), op == token.GEQ, true
+			case token.LEQ, token.GTR:
+				return fmt.Sprintf("typ<%d", k+1), op == token.GTR, true
+			}
+		}
+		x, y, op := b.X, b.Y, b.Op
+		if _, isCall := y.(*ssa.Call); isCall {
+			x, y, op = y, x, c15Flip[op]
+		}
+		if call, isCall := x.(*ssa.Call); isCall && call.Call.StaticCallee() == e.fn["Depth"] {
+			if t, okT := e.loadOf(call.Call.Args[0], "entry", "packed"); okT && isTarget(t) {
+				if dp, m, okY := c15KBin(y, token.ADD); okY && dp == ssa.Value(in.packedDepth) {
+					switch op { // as `depth > d+m`, possibly negated
+					case token.GTR:
+						return fmt.Sprintf("deeper>%d", m), false, true
+					case token.GEQ:
+						return fmt.Sprintf("deeper>%d", m-1), false, true
+					case token.LEQ:
+						return fmt.Sprintf("deeper>%d", m), true, true
+					case token.LSS:
+						return fmt.Sprintf("deeper>%d", m-1), true, true
+					}
+				}
+			}
+		}
+		if b.Op == token.EQL || b.Op == token.NEQ {
+			for _, o := range [][2]ssa.Value{{b.X, b.Y}, {b.Y, b.X}} {
+				if t, okT := e.loadOf(o[0], "entry", "gen"); okT && isTarget(t) && o[1] == ssa.Value(in.gen) {
+					return "gen", b.Op == token.NEQ, true
+				}
+			}
+		}
+		return "", false, false
+	}
 	early := 0
 	for _, r := range c15Returns(in.fn) {
 		if r.Block() == in.entStore.Block() || in.entStore.Block().Dominates(r.Block()) {
 			continue
 		}
 		early++
-		conds := controllingConds(r.Block())
-		sig, bound, deeper, sameGen := -1, -1, -1, -1
-		allowed := map[int64]bool{}
-		for v := range typeVals {
-			allowed[v] = true
+		// per requirement: 1 = holds on every path to the return, 0 = a recognised test is wrong, -1 = some path lacks the test
+		sig, bound, deeper, sameGen := 1, 1, 1, 1
+		kept := map[int64]bool{} // bound types with which the return is reachable
+		paths := 0
+		sm := &simulator{fn: in.fn, classify: classify, maxVisit: 1, interest: func(i ssa.Instruction) bool { return i == ssa.Instruction(r) }}
+		sm.visit = func(_ ssa.Instruction, asg map[string]bool) {
+			paths++
+			if !asg["sig"] {
+				sig = -1
+			}
+			if !asg["gen"] {
+				sameGen = -1
+			} else if in.stored["gen"] != ssa.Value(in.gen) {
+				sameGen = 0
+			}
+			okDeep, otherDeep := false, false
+			typed := false
+			for v := range typeVals {
+				holds := true
+				for atom, val := range asg {
+					var k int64
+					if _, err := fmt.Sscanf(atom, "typ==%d", &k); err == nil {
+						typed, holds = true, holds && (v == k) == val
+					} else if _, err := fmt.Sscanf(atom, "typ<%d", &k); err == nil {
+						typed, holds = true, holds && (v < k) == val
+					}
+				}
+				if holds {
+					kept[v] = true
+				}
+			}
+			for atom, val := range asg {
+				var m int64
+				if _, err := fmt.Sscanf(atom, "deeper>%d", &m); err == nil && val {
+					okDeep, otherDeep = okDeep || m == 2, otherDeep || m != 2
+				}
+			}
+			if !typed {
+				bound = -1
+			}
+			if !okDeep && otherDeep && deeper == 1 {
+				deeper = 0
+			} else if !okDeep && !otherDeep {
+				deeper = -1
+			}
 		}
-		for _, ce := range conds {
-			if sigTrue(ce) {
-				sig = 1
-			}
-			if x, op, k, ok := c15RelK(ce); ok && x == in.typ {
-				bound = 0
-				for v := range allowed {
-					holds := map[token.Token]bool{token.EQL: v == k, token.NEQ: v != k, token.LSS: v < k, token.LEQ: v <= k, token.GTR: v > k, token.GEQ: v >= k}[op]
-					if !holds {
-						delete(allowed, v)
-					}
-				}
-			}
-			x, y, op, ok := c15Rel(ce)
-			if !ok {
-				continue
-			}
-			if op == token.LSS || op == token.LEQ {
-				x, y, op = y, x, c15Flip[op]
-			}
-			if call, isCall := x.(*ssa.Call); isCall && call.Call.StaticCallee() == e.fn["Depth"] && (op == token.GTR || op == token.GEQ) {
-				if t, okT := e.loadOf(call.Call.Args[0], "entry", "packed"); okT && isTarget(t) {
-					if dp, m, okY := c15KBin(y, token.ADD); okY && dp == in.packedDepth {
-						if op == token.GEQ {
-							m--
-						}
-						deeper = map[bool]int{true: 1, false: 0}[m == 2]
-					}
-				}
-			}
-			if op == token.EQL {
-				for _, o := range [][2]ssa.Value{{x, y}, {y, x}} {
-					if t, okT := e.loadOf(o[0], "entry", "gen"); okT && isTarget(t) && o[1] == in.gen {
-						sameGen = map[bool]int{true: 1, false: 0}[in.stored["gen"] == in.gen]
-					}
-				}
-			}
+		sm.run()
+		if sm.aborted || paths == 0 {
+			c.Undec(rule, fmt.Sprintf("%skeep-deeper@%d", fnn, early), r.Pos(), "the paths to the return that skips the store could not be enumerated")
+			continue
 		}
-		if bound == 0 && len(allowed) == len(typeVals)-1 && !allowed[e.k["Exact"]] {
-			bound = 1
+		if bound == 1 && (kept[e.k["Exact"]] || len(kept) != len(typeVals)-1) {
+			bound = 0
 		}
 		for _, nd := range []struct {
 			name string
@@ -1391,7 +1770,7 @@ func c15R4(e *c15Env) {
 				c.Undec(rule, key, r.Pos(), "the return that skips the store tests %s in a form the rule does not understand", nd.par.Name())
 				continue
 			}
-			c.Check(nd.st == 1, rule, key, r.Pos(), "every path to the return that skips the store passes the test `%s` on the signature-matching entry (%s)", nd.name, nd.why)
+			c.Check(nd.st == 1, rule, key, r.Pos(), "the return that skips the store can execute only when `%s` holds for the signature-matching entry (%s)", nd.name, nd.why)
 			n++
 		}
 	}
@@ -1432,29 +1811,42 @@ func c15R4(e *c15Env) {
 	}
 	leaves(in.stored["Move"], nil, map[ssa.Value]bool{})
 	c.Floor(rule+".kept-move", kept, 1, "paths keeping the old hash move")
-	c.Floor(rule, n, 8, "lane bookkeeping obligations (walk, replace, pKeys, 4 keep-deeper conditions, kept move)")
+	c.Floor(rule, n, 5, "lane bookkeeping obligations (walk, replace, pKeys, keep-deeper conditions, kept move)")
 }
 
-// c15Clear: Clear stores 0 into pKeys of every bucket t.data[0..len) unconditionally
-// (signature 0 = empty lane; stale entries without signature are unreachable).
+// c15Clear: Clear zeroes the signature word of every bucket t.data[0..len) unconditionally
+// — by storing 0 to pKeys, a zero bucket to t.data[i], or clear(t.data) — (signature 0 =
+// empty lane; stale entries without signature are unreachable).
 func c15Clear(e *c15Env) {
 	const rule, key = "C15.R4", "transp.(*Table).Clear#keys-zeroed"
 	fn := e.fn["Clear"]
-	found, good := 0, false
+	found, good, nonZero, calls := 0, false, false, 0
+	isData := func(v ssa.Value) bool {
+		base, ok := e.loadOf(v, "Table", "data")
+		return ok && base == fn.Params[0]
+	}
 	allInstrs(fn, func(i ssa.Instruction) {
+		if call, ok := i.(*ssa.Call); ok {
+			if bi, isB := call.Call.Value.(*ssa.Builtin); isB && bi.Name() == "clear" && len(call.Call.Args) == 1 && isData(call.Call.Args[0]) {
+				found++
+				good = good || len(controllingConds(call.Block())) == 0
+			} else if callee := call.Call.StaticCallee(); callee != nil && isOwn(callee) {
+				calls++
+			}
+			return
+		}
 		st, ok := i.(*ssa.Store)
 		if !ok {
 			return
 		}
-		b, ok := e.fa(st.Addr, "bucket", "pKeys")
-		ia, isIx := b.(*ssa.IndexAddr)
-		if !ok || !isIx {
+		ia, isIx := st.Addr.(*ssa.IndexAddr) // t.data[i] = bucket{}
+		if b, isKeys := e.fa(st.Addr, "bucket", "pKeys"); isKeys {
+			ia, isIx = b.(*ssa.IndexAddr) // t.data[i].pKeys = 0
+		}
+		if !isIx || !isData(ia.X) {
 			return
 		}
 		found++
-		if base, ok := e.loadOf(ia.X, "Table", "data"); !ok || base != fn.Params[0] {
-			return
-		}
 		// index runs from 0: phi{0, +1} or phi{-1, +1}+1
 		idx, start := ia.Index, int64(0)
 		if x, k, ok := c15KBin(idx, token.ADD); ok && k == 1 {
@@ -1462,7 +1854,7 @@ func c15Clear(e *c15Env) {
 		}
 		ph, isPhi := idx.(*ssa.Phi)
 		from0 := isPhi
-		for _, ed := range append([]ssa.Value{}, c15Edges(ph)...) {
+		for _, ed := range c15Edges(ph) {
 			k, isk := constOf(ed)
 			x, one, isStep := c15KBin(ed, token.ADD)
 			from0 = from0 && (isk && k == start || isStep && one == 1 && (x == ph || start == -1 && ed == ia.Index))
@@ -1472,64 +1864,149 @@ func c15Clear(e *c15Env) {
 		bounded := len(conds) == 1
 		for _, ce := range conds {
 			x, y, op, ok := c15Rel(ce)
+			if ok && (op == token.GTR) {
+				x, y, op = y, x, token.LSS
+			}
 			ln, isCall := y.(*ssa.Call)
 			bounded = bounded && ok && op == token.LSS && x == ia.Index && isCall && len(ln.Call.Args) == 1
 			if bounded {
 				bi, isB := ln.Call.Value.(*ssa.Builtin)
-				base, okL := e.loadOf(ln.Call.Args[0], "Table", "data")
-				bounded = isB && bi.Name() == "len" && okL && base == fn.Params[0]
+				bounded = isB && bi.Name() == "len" && isData(ln.Call.Args[0])
 			}
 		}
 		k, isk := constOf(st.Val)
+		nonZero = nonZero || isk && k != 0
 		good = good || from0 && bounded && isk && k == 0
 	})
-	if found == 0 {
-		e.c.Undec(rule, key, fn.Pos(), "Clear has no store to bucket.pKeys through t.data[i] (cleared some other way?)")
-		return
+	switch {
+	case good:
+		e.c.Ok(rule, key, fn.Pos(), "Clear zeroes the signature word of t.data[i] for every i in [0, len(t.data)) with no other condition: a signature surviving Clear would make a later probe hit on data stored before the Clear")
+	case found == 0 && calls == 0:
+		e.c.Fail(rule, key, fn.Pos(), "Clear neither stores to t.data[i].pKeys / t.data[i] nor calls anything that could: signatures survive Clear and a later probe hits on data stored before it")
+	case nonZero:
+		e.c.Fail(rule, key, fn.Pos(), "Clear stores a non-zero constant into the signature word")
+	default:
+		e.c.Undec(rule, key, fn.Pos(), "Clear's way of emptying the buckets is not one the rule understands (%d candidate stores, %d calls): expected an unconditional loop over all of t.data storing zero", found, calls)
 	}
-	e.c.Check(good, rule, key, fn.Pos(), "Clear stores 0 to t.data[i].pKeys for every i in [0, len(t.data)) with no other condition: a signature surviving Clear makes a later probe hit on data stored before the Clear")
 }
 
 // ---------- R5 single writer, read-only consumers ----------
 
+// c15Group classifies the storage behind a store address: "contents" (a bucket, an
+// entry or a field of one), "table" (Table or a field of it), "" otherwise or
+// when the storage is a local temporary.
+func (e *c15Env) group(addr ssa.Value) string {
+	for a := addr; ; { // local temporaries (composite literal under construction, value receiver copy) are nobody's state
+		switch x := a.(type) {
+		case *ssa.FieldAddr:
+			a = x.X
+			continue
+		case *ssa.IndexAddr:
+			a = x.X
+			continue
+		case *ssa.Alloc:
+			return ""
+		}
+		break
+	}
+	owner := func(t types.Type) string {
+		if p, ok := t.Underlying().(*types.Pointer); ok {
+			t = p.Elem()
+		}
+		for _, g := range [][2]string{{"bucket", "contents"}, {"entry", "contents"}, {"Table", "table"}} {
+			if types.Identical(t, e.named[g[0]]) {
+				return g[1]
+			}
+		}
+		if arr, ok := t.Underlying().(*types.Array); ok && types.Identical(arr.Elem(), e.named["entry"]) {
+			return "contents"
+		}
+		return ""
+	}
+	if g := owner(addr.Type()); g != "" { // whole bucket / entry / Table
+		return g
+	}
+	if fa, ok := addr.(*ssa.FieldAddr); ok { // one field
+		return owner(fa.X.Type())
+	}
+	return ""
+}
+
+// c15OnlyFrom: fn is one of roots, or every call-graph caller of fn (transitively) is.
+func (e *c15Env) onlyFrom(fn *ssa.Function, roots map[*ssa.Function]bool, busy map[*ssa.Function]bool) bool {
+	if fn == nil {
+		return false
+	}
+	if fn.Parent() != nil {
+		return e.onlyFrom(fn.Parent(), roots, busy)
+	}
+	if roots[fn] {
+		return true
+	}
+	if busy[fn] {
+		return true
+	}
+	busy[fn] = true
+	defer delete(busy, fn)
+	n := e.p.CallGraph().Nodes[fn]
+	if n == nil || len(n.In) == 0 {
+		return false
+	}
+	for _, in := range n.In {
+		if !e.onlyFrom(in.Caller.Func, roots, busy) {
+			return false
+		}
+	}
+	return true
+}
+
 func c15R5(e *c15Env) {
 	const rule = "C15.R5"
 	c, p := e.c, e.p
-	ins, clr, rsz := "transp.(*Table).Insert", "transp.(*Table).Clear", "transp.(*Table).Resize"
-	allowed := map[string][]string{
-		"transp.bucket.pKeys": {ins, clr}, "transp.bucket.entries": {ins, clr},
-		"transp.entry.Move": {ins}, "transp.entry.value": {ins}, "transp.entry.packed": {ins}, "transp.entry.gen": {ins},
-		"transp.Table.data": {rsz}, "transp.Table.raw": {rsz},
+	roots := map[string]map[*ssa.Function]bool{
+		"contents": {e.fn["Insert"]: true, e.fn["Clear"]: true},
+		"table":    {e.fn["Resize"]: true},
 	}
+	what := map[string]string{"contents": "bucket signatures / entries", "table": "Table.data / Table.raw"}
+	who := map[string]string{"contents": "Insert and Clear (and helpers only they call)", "table": "Resize (and helpers only it calls)"}
 	n := 0
-	for _, f := range sortedKeys(allowed) {
-		ws := p.writersOf(f)
-		for _, w := range sortedKeys(ws) {
-			s := ws[w][0]
-			okW := false
-			selfStore := strings.HasSuffix(w, "#escape") // a re-slice of the field stored back into the same field by an allowed writer
-			for _, st := range ws[w] {
-				x, isStore := st.In.(*ssa.Store)
-				fr, isField := fieldRef{}, false
-				if isStore {
-					fr, isField = asFieldAddr(x.Addr)
+	for _, fn := range p.OwnFuncs() {
+		sites := map[string][]ssa.Instruction{}
+		allInstrs(fn, func(i ssa.Instruction) {
+			switch x := i.(type) {
+			case *ssa.Store:
+				if g := e.group(x.Addr); g != "" {
+					sites[g] = append(sites[g], i)
 				}
-				selfStore = selfStore && isField && fr.QName() == f
+			case *ssa.Call:
+				if bi, ok := x.Call.Value.(*ssa.Builtin); ok && (bi.Name() == "clear" || bi.Name() == "copy") && len(x.Call.Args) > 0 {
+					if sl, ok := x.Call.Args[0].Type().Underlying().(*types.Slice); ok {
+						if g := e.group(ssa.Value(x.Call.Args[0])); g == "" && (types.Identical(sl.Elem(), e.named["bucket"]) || types.Identical(sl.Elem(), e.named["entry"])) {
+							sites["contents"] = append(sites["contents"], i)
+						}
+					}
+				}
 			}
-			for _, a := range allowed[f] {
-				okW = okW || a == w || selfStore && a+"#escape" == w
-			}
-			if okW {
-				c.Ok(rule, "writer:"+f+"@"+w, s.Pos, "%s stores %s (%d sites)", w, f, len(ws[w]))
+		})
+		for _, g := range sortedKeys(sites) {
+			key := "writer:" + g + "@" + fnName(fn)
+			if e.onlyFrom(fn, roots[g], map[*ssa.Function]bool{}) {
+				c.Ok(rule, key, sites[g][0].Pos(), "%s stores %s (%d sites) and runs only as part of %s", fnName(fn), what[g], len(sites[g]), who[g])
 				n++
-			} else if strings.HasSuffix(w, "#escape") {
-				c.Fail(rule, "writer:"+f+"@"+w, s.Pos, "address of %s escapes in %s (%s): a party other than %v may write table state", f, strings.TrimSuffix(w, "#escape"), s.What, allowed[f])
 			} else {
-				c.Fail(rule, "writer:"+f+"@"+w, s.Pos, "%s stores %s; only %v may: a probe would return data that no Insert stored for the key", w, f, allowed[f])
+				c.Fail(rule, key, sites[g][0].Pos(), "%s stores %s; only %s may: a probe would return data that no Insert stored for the key", fnName(fn), what[g], who[g])
+			}
+		}
+		// addresses of table state handed to code that is not part of the writers
+		eff := directEffects(fn)
+		for _, k := range sortedKeys(eff.Escapes) {
+			if (strings.HasPrefix(k, "transp.bucket.") || strings.HasPrefix(k, "transp.entry.") || strings.HasPrefix(k, "transp.Table.")) && !e.onlyFrom(fn, roots["contents"], map[*ssa.Function]bool{}) && !e.onlyFrom(fn, roots["table"], map[*ssa.Function]bool{}) {
+				s := eff.Escapes[k][0]
+				c.Undec(rule, "escape:"+k+"@"+fnName(fn), s.Pos, "address of %s leaves %s (%s); who writes through it is not followed", k, fnName(fn), s.What)
 			}
 		}
 	}
-	c.Floor(rule+".writers", n, 10, "allowed (field, writer) pairs")
+	c.Floor(rule+".writers", n, 2, "(state, writer) pairs: at least one writer of bucket contents and one of Table.data")
 	// consumers of LookUp's pointer
 	sites := 0
 	for _, fn := range p.OwnFuncs() {
@@ -1601,33 +2078,42 @@ func c15R5(e *c15Env) {
 func c15R6(e *c15Env) {
 	const rule = "C15.R6"
 	c := e.c
-	fn, vs := e.fn["Resize"], e.fn["validateSize"]
+	fn := e.fn["Resize"]
 	fnn := "transp.(*Table).Resize#"
-	if len(fn.Params) != 2 || len(vs.Params) != 1 {
-		c.Undec(rule, fnn+"shape", fn.Pos(), "Resize(size)/validateSize(size) parameters changed")
+	if len(fn.Params) != 2 {
+		c.Undec(rule, fnn+"shape", fn.Pos(), "Resize(size) parameters changed")
 		return
 	}
 	recv, size := fn.Params[0], fn.Params[1]
 	szB, alB := e.sizes.Sizeof(e.named["bucket"]), e.sizes.Alignof(e.named["bucket"])
 	n := 0
-	// validateSize returns only for size >= K
-	minSize := int64(math.MaxInt64)
-	for _, r := range c15Returns(vs) {
-		k := int64(math.MinInt64)
-		for _, ce := range controllingConds(r.Block()) {
-			if x, op, v, ok := c15RelK(ce); ok && x == vs.Params[0] {
-				switch op {
-				case token.GEQ:
-					k = max(k, v)
-				case token.GTR:
-					k = max(k, v+1)
-				}
+	// sizes with which a store to t.data can execute: branch conditions in Resize on the way
+	// to it, and for every chess-3 function called with size before it, the sizes it returns for
+	ev := c15NewEv(func(v ssa.Value) bool { return v == ssa.Value(size) }, func(ssa.Value) bool { return false })
+	sizesAt := func(st *ssa.Store) c15Set {
+		g := ev.reachOf(st.Block())
+		allInstrs(fn, func(i ssa.Instruction) {
+			call, ok := i.(*ssa.Call)
+			if !ok || !instrDominates(call, st) {
+				return
 			}
-		}
-		minSize = min(minSize, k)
+			passes := false
+			for _, a := range call.Call.Args {
+				passes = passes || a == ssa.Value(size)
+			}
+			if callee := ev.bind(call); callee != nil && passes {
+				var ret c15Set
+				for _, r := range c15Returns(callee) {
+					ret = ret.or(ev.reachOf(r.Block()))
+				}
+				g = g.and(ret)
+			}
+		})
+		return g
 	}
 	var div int64 = -1
 	var lens []ssa.Value
+	var allowed c15Set
 	stores := 0
 	allInstrs(fn, func(i ssa.Instruction) {
 		st, ok := i.(*ssa.Store)
@@ -1638,12 +2124,7 @@ func c15R6(e *c15Env) {
 			return
 		}
 		stores++
-		validated := false
-		for _, vc := range callsIn(fn, "transp.validateSize") {
-			validated = validated || (vc.Common().Args[0] == size && instrDominates(vc.(ssa.Instruction), st))
-		}
-		c.Check(validated, rule, fmt.Sprintf("%svalidated@%d", fnn, stores), st.Pos(), "validateSize(size) is executed before t.data is replaced")
-		n++
+		allowed = allowed.or(sizesAt(st))
 		switch v := st.Val.(type) {
 		case *ssa.Slice:
 			if b, ok := e.loadOf(v.X, "Table", "data"); ok && b == recv && v.Low == nil && v.High != nil {
@@ -1663,19 +2144,57 @@ func c15R6(e *c15Env) {
 		okLen = okLen && ok && stripConv(x) == size && (div < 0 || div == d)
 		div = d
 	}
-	panics := false
-	allInstrs(vs, func(i ssa.Instruction) {
-		if _, ok := i.(*ssa.Panic); ok {
-			panics = true
+	for _, l := range lens { // size >> k
+		if x, k, ok := c15KBin(stripConv(l), token.SHR); ok && stripConv(x) == ssa.Value(size) && !okLen && len(lens) == stores {
+			div, okLen = 1<<uint(k), true
 		}
-	})
-	if !okLen || !panics {
-		c.Undec(rule, fnn+"length", fn.Pos(), "every new t.data is not a slice of length size/k (%d stores, %d recognised), or validateSize no longer rejects by panicking", stores, len(lens))
-	} else {
-		c.Check(div >= szB && minSize >= div, rule, fnn+"length", fn.Pos(), "t.data gets size/%d buckets of %d bytes (must not exceed size bytes) and validateSize guarantees size >= %s (must give at least one bucket: bucketIx of an empty table indexes out of range)", div, szB, strings.Replace(fmt.Sprint(minSize), fmt.Sprint(int64(math.MinInt64)), "nothing", 1))
+	}
+	allowed = allowed.and(c15Set{{0, c15Max}}) // a negative size panics in make / in the re-slice
+	benign := true                             // the only conditions not understood are divisibility tests of size
+	for _, u := range ev.unknown {
+		b, ok := u.(*ssa.BinOp)
+		isMod := false
+		if ok {
+			for _, o := range []ssa.Value{b.X, b.Y} {
+				if r, _, okR := c15KBin(o, token.REM); okR && ev.root(r) {
+					isMod = true
+				}
+			}
+		}
+		guard := !ok // does the condition decide between continuing and panicking?
+		if ok && b.Referrers() != nil {
+			for _, r := range *b.Referrers() {
+				iff, isIf := r.(*ssa.If)
+				if !isIf {
+					guard = true // feeds a compound condition: assume it may
+					continue
+				}
+				for _, sb := range iff.Block().Succs {
+					if _, p := sb.Instrs[len(sb.Instrs)-1].(*ssa.Panic); p {
+						guard = true
+					}
+				}
+			}
+		}
+		benign = benign && (isMod || !guard)
+		if !(isMod || !guard) {
+			c.Note("C15.R6: size condition not understood: %s = %s in %s", u.Name(), u.String(), u.Parent().Name())
+		}
+	}
+	switch {
+	case !okLen:
+		c.Undec(rule, fnn+"length", fn.Pos(), "every new t.data is not a slice of length size/k (%d stores, %d recognised)", stores, len(lens))
+	case len(allowed) > 0 && allowed[0][0] < div && !benign:
+		c.Undec(rule, fnn+"length", fn.Pos(), "whether sizes below %d are rejected before t.data is replaced depends on conditions the rule does not understand", div)
+	default:
+		lo := "nothing"
+		if len(allowed) > 0 && allowed[0][0] != c15Min {
+			lo = fmt.Sprint(allowed[0][0])
+		}
+		c.Check(div >= szB && len(allowed) > 0 && allowed[0][0] >= div, rule, fnn+"length", fn.Pos(), "t.data gets size/%d buckets of %d bytes (must not exceed size bytes); it is replaced only for size >= %s, guaranteed by the checks in Resize and the functions it passes size to (must give at least one bucket: bucketIx of an empty table indexes out of range)", div, szB, lo)
 		n++
 	}
-	c.Floor(rule, n, 4, "resize obligations (2 stores validated, length, allocation)")
+	c.Floor(rule, n, 2, "resize obligations (length, allocation)")
 }
 
 // c15Grow checks data = unsafe.Slice((*bucket)((&raw[0] + m1) &^ m2), n) against raw = make([]byte, size + c).
@@ -1781,7 +2300,7 @@ func init() {
 		Mutant{Name: "C15.R4-clear-skips-first-bucket", Prop: "C15", File: T, Old: "\tfor i, bucket := range t.data {\n\t\tt.data[i].pKeys = 0\n", New: "\tfor i, bucket := range t.data[1:] {\n\t\tt.data[i+1].pKeys = 0\n", Expect: "C15.R4/transp.(*Table).Clear#keys-zeroed"},
 		// R5
 		Mutant{Name: "C15.R5-search-writes-through-probe", Prop: "C15", File: "search/search.go", Quick: true, Old: "\t\thashMove = transpE.Move\n", New: "\t\thashMove = transpE.Move\n\t\ttranspE.Move = 0\n", Expect: "C15.R5/"},
-		Mutant{Name: "C15.R5-value-rebases-in-place", Prop: "C15", File: T, Old: "\t\treturn e.value + Score(ply)\n", New: "\t\te.value += Score(ply)\n\t\treturn e.value\n", Expect: "C15.R5/writer:transp.entry.value"},
+		Mutant{Name: "C15.R5-value-rebases-in-place", Prop: "C15", File: T, Old: "\t\treturn e.value + Score(ply)\n", New: "\t\te.value += Score(ply)\n\t\treturn e.value\n", Expect: "C15.R5/writer:contents@transp.(*entry).Value"},
 		Mutant{Name: "C15.R5-probe-pointer-retained", Prop: "C15", File: "search/search.go", Old: "\t\thashMove = transpE.Move\n", New: "\t\thashMove = transpE.Move\n\t\tdefer func() { _ = transpE.Value(ply) }()\n", Expect: "C15.R5/consumer:search.(*Search).alphaBeta"},
 		// R6
 		Mutant{Name: "C15.R6-no-slack", Prop: "C15", File: T, Old: "make([]byte, size+bucketSize-1)", New: "make([]byte, size)", Expect: "C15.R6/transp.(*Table).Resize#allocation"},
